@@ -220,7 +220,8 @@ class MultiSection(Contract):
         flat = "".join(p if isinstance(p, str) else "\x02" for p in r.pieces)
         order = [flat.find(mark(t)) for t in ("START", "FONTS", "COLORS", "PAGEHEADER", "PAGEFOOTER", "PAGESETTINGS")]
         cl = {"C01.prolog_in_fixed_order_before_the_sections": z3.BoolVal(all(o >= 0 for o in order) and order == sorted(order) and flat.find("\x02") > order[-1]),
-              "C01.single_closing_brace_last": z3.BoolVal(flat.endswith("\n\n\n}") and flat.count("}") == 1 and flat.count("{") == 0)}
+              "C01.single_closing_brace_last": z3.BoolVal(flat.endswith("\n\n\n}") and flat.count("}") == 1 and flat.count("{") == 0),
+              "C06.page_header_and_footer_defined_exactly_once": z3.BoolVal(flat.count(mark("PAGEHEADER")) == 1 and flat.count(mark("PAGEFOOTER")) == 1)}
         st = out.state
         for key, rec in v["recs"].items():
             txt = st.obj(rec).fields.get("text")
